@@ -115,6 +115,10 @@ def strategy_stream(ctx, rng, name, mk):
     chunks = S.gen_chunks(rng, n, maxc=5)
     payload = dict(strategy=name, manager=("default" if default_mgr else mk), budget=b, seed=seed, ffb=ffb, chunks=chunks,
                    candidates=cand.tolist())
+    if (cognitive or name == "StreamDensityBasedAL") and rng.random() < 0.3:
+        # the density test with the library's own distance function and a non-default metric (seed R12I05)
+        payload["dist_dict"] = {"metric": rng.choice(["chebyshev", "cityblock"])}
+        ctx.count("strategy_dist_func_dict")
     res = run_strategy(payload)
     granted = sum(len(q) for q in res["queries"])
     ctx.case(("s", name, mk, seed, b, ffb, tuple(chunks)), len(chunks) >= 2 and max(chunks) >= 2 and granted >= 1,
@@ -188,7 +192,8 @@ def run_strategy(payload):
     """query -> update over the chunks; records well-formedness, exceptions of update, density-filter outcomes."""
     name = payload["strategy"]
     mk = None if payload["manager"] == "default" else payload["manager"]
-    qs = S.make_strategy(name, mk, payload["budget"], payload["seed"], ffb=payload["ffb"], default_mgr=(mk is None))
+    qs = S.make_strategy(name, mk, payload["budget"], payload["seed"], ffb=payload["ffb"], default_mgr=(mk is None),
+                         dist_dict=payload.get("dist_dict"))
     cand = np.array(payload["candidates"], dtype=float)
     cognitive = name.startswith("CognitiveDual")
     ldf_log = []
